@@ -216,6 +216,13 @@ func runCase(k kase) (out result) {
 		return
 	}
 	defer func() {
+		for _, sp := range senders {
+			if sp != nil && sp.commitCh != nil && k.Kind != "chan" {
+				// a Commit that is still retrying: closing the listener would turn its retry loop into a busy loop
+				// (dial fails at once); leave everything open, the process is short-lived
+				return
+			}
+		}
 		for _, c := range closers {
 			c()
 		}
